@@ -18,6 +18,9 @@ WHENS = [datetime.datetime(1999, 1, 1), datetime.datetime(2000, 1, 1), datetime.
 MULTI = [u"m1", u"m2", u"m3"]
 FIELDS = {"num": NUMS, "numnc": NUMS, "tag": TAGS, "tagnc": TAGS, "when": WHENS, "flag": [False, True], "multi": MULTI,
           "st": TAGS}
+# queries inside query facets (fuzzy matching has its own recorded finding under C01/C19 and is left to them)
+FACET_QUERY_OPS = ["term", "every", "null", "prefix", "wildcard", "termrange", "numrange", "phrase", "and", "or", "andnot",
+                   "andmaybe", "require", "not", "dismax", "const"]
 # RangeFacet("num", start, end, gap, hardend) configurations
 RANGES = [(-5, 10, 5, False), (0, 8, 3, False), (0, 8, 3, True), (-1, 20, [1, 2, 10], False), (1, 101, 50, False),
           (0, 1, 1, False)]
@@ -141,7 +144,7 @@ def observe(s, q, aq, rng, missing):
             return ["_range", False, buckets_of(*rg), list(rg)]
         if c < 0.36:
             # a query facet whose queries are disjoint, so that every document has one key
-            a, b = world.rand_query(rng, 1), world.rand_query(rng, 1)
+            a, b = world.rand_query(rng, 1, ops=FACET_QUERY_OPS), world.rand_query(rng, 1, ops=FACET_QUERY_OPS)
             return ["_query", False, [a, {"op": "andnot", "a": b, "b": a}]]
         return [rng.choice(single), rng.random() < 0.4]
     # sorting
@@ -203,7 +206,7 @@ def observe(s, q, aq, rng, missing):
         obs.append({"kind": "groups", "path": "groupedby=RangeFacet(num, %s)" % (rg,), "f": "_range", "overlap": False,
                     "buckets": bs, "groups": out})
     guard("groups:range", gr)
-    aqs = [world.rand_query(rng, rng.randrange(0, 2)) for _ in range(rng.choice([1, 2, 3]))]
+    aqs = [world.rand_query(rng, rng.randrange(0, 2), ops=FACET_QUERY_OPS) for _ in range(rng.choice([1, 2, 3]))]
     for overlap in (False, True):
         other = rng.choice([None, "zz"])
 
@@ -291,6 +294,18 @@ def observe(s, q, aq, rng, missing):
                         "hasfilt": hasf, "hasmask": hasm, "filt": afilt, "mask": amask, "k": k,
                         "n": len(s.search(q, limit=k or None, **kw)), "n_unlimited": len(s.search(q, limit=None, **kw))})
         guard("filtered", ff)
+        # the limit bounds the hits whatever else the search computes, in either direction
+        for rev, grouped in ((False, True), (True, False), (True, True)):
+            k = rng.choice([1, 2, 3])
+
+            def lm(rev=rev, grouped=grouped, k=k):
+                def mk():
+                    kw = {"groupedby": "tag"} if grouped else {}
+                    r = s.search(q, limit=k, reverse=rev, **kw)
+                    return {"kind": "limited", "path": "search(limit=%d, reverse=%s%s)" % (k, rev, ", groupedby=tag" if grouped else ""),
+                            "k": k, "rev": rev, "docs": [int(h.docnum) for h in r]}
+                limited(mk)
+            guard("limited", lm)
         # combining two Results objects
         aq2 = world.rand_query(rng, 1, scored_only=True)
         if c01_scored(aq2):
